@@ -12,6 +12,8 @@ Parametricity Recursive liouville_to_choi.
 Parametricity Recursive projected_choi.
 Parametricity Recursive liouville_is_CP.
 Parametricity Recursive liouville_is_cCP.
+Parametricity Recursive liouville_is_CP_stack.
+Parametricity Recursive liouville_is_cCP_stack.
 Parametricity Recursive ggm_basis.
 Parametricity Recursive basis_atol.
 
